@@ -59,3 +59,31 @@ func init() {
 		}
 	}
 }
+
+func init() {
+	// ---- sync/atomic on plain integers: sequential semantics -------------
+	for _, ty := range []string{"Int64", "Int32", "Uint64", "Uint32"} {
+		ty := ty
+		models["sync/atomic.Load"+ty] = func(x *Exec, st *State, fr *Frame, fn *ssa.Function, args []Value, pos token.Pos) []Outcome {
+			return single(st, x.load(st, args[0], pos))
+		}
+		models["sync/atomic.Store"+ty] = func(x *Exec, st *State, fr *Frame, fn *ssa.Function, args []Value, pos token.Pos) []Outcome {
+			x.store(st, args[0], args[1], pos)
+			return single(st)
+		}
+		models["sync/atomic.Add"+ty] = func(x *Exec, st *State, fr *Frame, fn *ssa.Function, args []Value, pos token.Pos) []Outcome {
+			old := x.load(st, args[0], pos)
+			nv := x.binop(st, token.ADD, old, args[1], old.T, pos)
+			x.store(st, args[0], nv, pos)
+			return single(st, nv)
+		}
+		eff := func(x *Exec, fn *ssa.Function, ws *writeSet) {
+			if p := pointee(fn.Signature.Params().At(0).Type()); p != nil {
+				n, s := x.opaqueHeap(p)
+				ws.heaps[n] = s
+			}
+		}
+		modelEffects["sync/atomic.Store"+ty] = eff
+		modelEffects["sync/atomic.Add"+ty] = eff
+	}
+}
